@@ -230,6 +230,25 @@ Proof.
   - apply alookup_aremove_other. assumption.
 Qed.
 
+Lemma aremove_absent : forall m k, alookup k m = None -> aremove k m = m.
+Proof.
+  induction m as [|[k0 v0] r IH]; intros k H; cbn [aremove alookup] in *; auto.
+  destruct (name_eqb k k0); try discriminate. f_equal. apply IH. exact H.
+Qed.
+
+Lemma aremove_app : forall m1 m2 k, aremove k (m1 ++ m2) = aremove k m1 ++ aremove k m2.
+Proof.
+  induction m1 as [|[k0 v0] r IH]; intros m2 k; cbn [app aremove]; auto.
+  destruct (name_eqb k k0); cbn [app]; rewrite IH; reflexivity.
+Qed.
+
+(** taking back an entry that was inserted under a fresh key gives the map back *)
+Lemma aremove_ainsert_absent : forall m k v, alookup k m = None -> aremove k (ainsert k v m) = m.
+Proof.
+  intros m k v H. unfold ainsert. rewrite aremove_app. cbn [aremove]. rewrite name_eqb_refl.
+  rewrite app_nil_r. rewrite (aremove_absent m k H). apply aremove_absent. exact H.
+Qed.
+
 Lemma akeys_app : forall m1 m2, akeys (m1 ++ m2) = akeys m1 ++ akeys m2.
 Proof. intros. unfold akeys. apply map_app. Qed.
 
